@@ -14,8 +14,10 @@ layout; get-and-clear returns the record the device deleted, the delete request 
 the reservation obtained last before it and so do all reads in between, the final log
 is the old log plus the adversary's additions minus that record.
 """
+import contextlib
 import os
 import struct
+import types
 
 from . import common as C
 from . import fakeif as F
@@ -28,6 +30,8 @@ MODEL_MAP = [
     {'python': 'pyipmi/sel.py:Sel.sel_entries/get_sel_entries', 'coq': 'Model.SelIO.get_sel_entries/entries_loop'},
     {'python': 'pyipmi/sel.py:Sel.get_and_clear_sel_entry', 'coq': 'Model.SelIO.get_and_clear_sel_entry/on_cancel'},
     {'python': 'pyipmi/sel.py:SelEntry._from_response', 'coq': 'Model.SelIO.sel_entry_decode'},
+    {'python': 'pyipmi/sel.py:Sel._clear_sel / Sel.clear_sel + pyipmi/helper.py:_clear_repository/clear_repository_helper',
+     'coq': 'Model.SelIO.clear_sel_cmd/clear_repository/clear_sel (cross-checked with Model.Helper.clear_repository_helper)'},
     {'python': 'pyipmi/msgs/sel.py:GetSelInfo/ReserveSel/GetSelEntry/DeleteSelEntry Req+Rsp',
      'coq': 'Model.SelIO.sel_info_req/reserve_req/get_entry_req/delete_req/dec_sel_info/dec_id16/dec_get_entry'},
 ]
@@ -35,7 +39,7 @@ TRUSTED = ['harness/c12.py:SelDevice (Python twin of the Gallina device sel_dev;
            're-answered by sel_dev inside Coq, final log and deletion record compared)']
 
 NETFN = 0x0a
-CMD_INFO, CMD_RESERVE, CMD_GET, CMD_DELETE = 0x40, 0x42, 0x43, 0x46
+CMD_INFO, CMD_RESERVE, CMD_GET, CMD_DELETE, CMD_CLEAR = 0x40, 0x42, 0x43, 0x46, 0x47
 MAXREQ = 500      # below Corr.C12.FI: a client that loops is cut off by a transport exception
 
 
@@ -143,7 +147,33 @@ class SelDevice:
             self.deleted.append(rc)
             self.valid = False
             return bytes([0, rc[0], rc[1]])
+        if cmd == CMD_CLEAR:
+            if len(data) != 6:
+                return b'\xc7'
+            resv, key, ctl = data[0] | data[1] << 8, data[2:5], data[5]
+            if key != b'CLR':
+                return b'\xcc'
+            if not (self.valid and resv == self.resv):
+                return b'\xc5'
+            if ctl == 0xaa:
+                self.log = []
+                return b'\x00\x01'
+            if ctl == 0:
+                return b'\x00\x01'
+            return b'\xcc'
         return b'\xc1'
+
+
+@contextlib.contextmanager
+def fake_sleep(sleeps):
+    """pyipmi.helper sleeps through its module global `time`: record instead (ms)"""
+    import pyipmi.helper as H
+    old = H.time
+    H.time = types.SimpleNamespace(sleep=lambda t: sleeps.append(int(round(t * 1000))))
+    try:
+        yield
+    finally:
+        H.time = old
 
 
 def _run(dev, fn):
@@ -254,6 +284,36 @@ def oracle_gac(inp):
     return _gac_trace(ex, rid, target)
 
 
+def oracle_clear(inp):
+    """clear_sel: the whole log is erased (what remains is what other parties appended after the erase),
+    nothing is recorded as deleted entry by entry, Clear requests carry the reservation obtained last"""
+    dev = _dev_in(inp)
+    sleeps = []
+    with fake_sleep(sleeps):
+        out, ex = _run(dev, lambda ipmi: ipmi.clear_sel(**({'retry': inp['retry']} if inp.get('retry') else {})))
+    if out[0] == 'err':
+        return 'raised %r (%d concurrent changes)' % (out[1], sum(p is not None for p in inp.get('plan', [])))
+    er = [i for i, x in enumerate(ex) if x.cmd == CMD_CLEAR and x.data[5:6] == b'\xaa' and x.reply[:1] == b'\x00']
+    if len(er) != 1:
+        return '%d successful Initiate Erase requests' % len(er)
+    later = [bytes.fromhex(p) for p in inp.get('plan', [])[er[0] + 1:len(ex)] if p is not None]
+    if dev.log != later:
+        return 'log after clear_sel holds %d entries, expected %d (those appended after the erase)' % (len(dev.log), len(later))
+    if dev.deleted:
+        return 'entries were deleted one by one'
+    R = None
+    for x in ex:
+        if x.cmd == CMD_RESERVE and x.reply[:1] == b'\x00':
+            R = x.reply[1] | x.reply[2] << 8
+        elif x.cmd == CMD_CLEAR and (x.data[0] | x.data[1] << 8) != R:
+            return 'Clear SEL under reservation %04x, the last Reserve returned %r' % (x.data[0] | x.data[1] << 8, R)
+        elif x.cmd not in (CMD_RESERVE, CMD_CLEAR):
+            return 'unexpected request cmd=%02x' % x.cmd
+    if not ex or ex[-1].cmd != CMD_CLEAR or ex[-1].data[5:6] != b'\x00':
+        return 'the erase status was not polled last'
+    return None
+
+
 def oracle_decode(inp):
     import pyipmi.sel as ps
     r = bytes.fromhex(inp['rec'])
@@ -288,6 +348,8 @@ def _apply_sel(ipmi, c):
         return ipmi.get_sel_entries_count()
     if op == 'gac':
         return ipmi.get_and_clear_sel_entry(c['rid'])
+    if op == 'clear':
+        return ipmi.clear_sel()
     if op == 'entry':
         if c.get('resv'):
             return ipmi.get_sel_entry(c['rid'], ipmi.get_sel_reservation_id())
@@ -319,8 +381,10 @@ def exec_sel_history(inp):
         snap = {'log': list(dev.log), 'limit': dev.limit, 'resv': dev.resv, 'valid': dev.valid,
                 'plan': list(dev.plan), 'ndel': len(dev.deleted)}
         start = len(itf.log)
+        snap['sleeps'] = []
         try:
-            out = ('ok', _apply_sel(ipmi, c))
+            with fake_sleep(snap['sleeps']):
+                out = ('ok', _apply_sel(ipmi, c))
         except Exception as e:  # noqa
             out = ('err', e)
         dev.plan = []
@@ -361,6 +425,12 @@ def judge_sel_call(c, out, seg, snap, dev, ref):
             m = check_entry(e, r)
             if m:
                 return 'entries-content', 'entry %d: %s' % (k, m), ref
+    elif op == 'clear':
+        if out[0] == 'err':
+            return 'clear-raises', 'raised %r' % (out[1],), ref
+        if dev.log or len(dev.deleted) != snap['ndel']:
+            return 'clear-log', 'log holds %d entries after clear_sel' % len(dev.log), []
+        return None, None, []
     elif op == 'entry':
         k = _find(ref, c['rid'])
         if k is None:
@@ -439,7 +509,8 @@ def _sel_seq(inp):
     return r[0] if r else None
 
 
-ORACLES = {'entries': oracle_entries, 'gac': oracle_gac, 'decode': oracle_decode, 'sel_seq': _sel_seq}
+ORACLES = {'entries': oracle_entries, 'gac': oracle_gac, 'decode': oracle_decode, 'sel_seq': _sel_seq,
+           'clear': oracle_clear}
 
 
 def _safe(f):
@@ -715,6 +786,39 @@ def run(ctx):
         D.add(('gscript', repr(sc)), True, 'nonconforming-device')
 
 
+    # ------------------------------------------------------------ clear_sel
+    def clear_case(log, plan, retry=None, script=None):
+        inp = {'log': [r.hex() for r in log], 'limit': 0xff, 'plan': [None if p is None else p.hex() for p in plan]}
+        if retry is not None:
+            inp['retry'] = retry
+        if script is None and (retry is None or retry >= 2 + sum(p is not None for p in plan)):
+            oracle('clear', inp, 'clear_sel:log-erased')
+        dev = SelDevice(log, 0xff, plan=plan, script=dict(script or {}), max_requests=200)
+        sleeps = []
+        with fake_sleep(sleeps):
+            out, ex = _run(dev, lambda ipmi: ipmi.clear_sel(**({'retry': retry} if retry is not None else {})))
+        devt = dev_term(log, 0xff, plan, dev, ex) if script is None else 'true'
+        add('(let ex := %s in chk_clear %s ex %s %s && %s)'
+            % (c_ex(ex), C.c_nat(5 if retry is None else retry), C.c_list([str(x) for x in sleeps]),
+               c_res(out, lambda v: 'tt'), devt),
+            {'kind': 'clear_sel', 'n': len(log), 'retry': retry, 'changes': sum(p is not None for p in plan),
+             'script': repr(script) if script else None})
+        D.add(('clear', len(log), retry, tuple(plan), repr(script)), True, 'clear_sel')
+
+    for n in (0, 1, 4, 12):
+        clear_case(mk_log(rng, n), [])
+    for pos in range(0, 5):
+        clear_case(mk_log(rng, 3), [None] * pos + [fresh_early()])
+    clear_case(mk_log(rng, 3), [fresh_early(), fresh_early(), None, fresh_early()])
+    clear_case(mk_log(rng, 3), [None, fresh_early(), fresh_early(), fresh_early(), fresh_early(), fresh_early()])   # budget exhausted
+    for retry in (0, 1, 2, 3, 8):
+        clear_case(mk_log(rng, 2), [], retry=retry)
+        clear_case(mk_log(rng, 2), [None, fresh_early()], retry=retry)
+    for sc in ({1: b'\x00\x00', 2: b'\x00\x00'}, {2: b'\x00\x00', 3: b'\x00\x10', 4: b'\x00\x00'},
+               dict((k, b'\x00\x00') for k in range(1, 12)), {1: b'\xd5'}, {0: b'\xc0'}, {1: b'\x00'}, {1: b'\x00\x01\x02'},
+               {2: PE.IpmiTimeoutError()}, {1: b'\xc5', 2: b'\xc9'}, {1: b'\xc5', 2: b'\x00\x07'}):
+        clear_case(mk_log(rng, 2), [], script=sc)
+
     # ------------------------------------------------------------ history stage
     def snap_dev(snap, dev, ex_name='ex'):
         return ('chk_seldev %s %d %d %s %s %s %s %s'
@@ -729,10 +833,12 @@ def run(ctx):
         calls = []
 
         def client(op=None, obj=None):
-            op = op or rng.choice(['entries', 'entries', 'count', 'entry', 'gac', 'gac'])
+            op = op or rng.choice(['entries', 'entries', 'count', 'entry', 'gac', 'gac', 'gac', 'clear'])
             c = {'op': op, 'obj': obj or rng.choice('AAB')}
             if op in ('entry', 'gac') and not cur:
                 c['op'] = op = 'entries'
+            if op == 'clear':
+                del cur[:]
             if op == 'entry':
                 c['rid'] = rng.choice([0, 0xffff] + [rec_id(r) for r in cur])
                 c['resv'] = True if lim_now[0] not in (0xff, 16) else rng.random() < 0.5
@@ -801,6 +907,8 @@ def run(ctx):
                     t = 'chk_entries ex %s' % c_res(out, lambda v: C.c_list([c_entry(e) for e in v]))
                 elif c['op'] == 'gac':
                     t = 'chk_gac %d ex %s' % (c['rid'], c_res(out, c_entry))
+                elif c['op'] == 'clear':
+                    t = 'chk_clear 5 ex %s %s' % (C.c_list([str(x) for x in snap['sleeps']]), c_res(out, lambda v: 'tt'))
                 elif c.get('resv') and seg and seg[0].cmd == CMD_RESERVE and len(seg[0].reply) == 3:
                     R = seg[0].reply[1] | seg[0].reply[2] << 8
                     t = ('chk_reserve (firstn 1 ex) (Ok %d) && chk_entry %d %d (tl ex) %s'
